@@ -114,7 +114,7 @@ Fixpoint LOOPG (n : nat) (ls : lexstate) (s : list ch) (ln : Z) (harmony : bool)
                      let t0 := aval_to_i v in
                      let t1 := if t0 <=? 48 then 48 else t0 in
                      let t2 := if t1 >? 32767 then 32767 else t1 in
-                     LOOPG n' (mkLex t2 (lx_logs ls) (lx_vars ls) (lx_rhythm ls)) s2 ln2 harmony acc
+                     LOOPG n' (mkLex t2 (lx_logs ls) (lx_vars ls) (lx_rhythm ls) (lx_ja ls)) s2 ln2 harmony acc
                    else if list_eqb ttype (zs "Rhythm") then
                      let '(s2, ln2) := skip_space s1 ln in
                      let '(block, s3, ln3) := get_token_nest s2 ln2 123 125 in
@@ -190,7 +190,7 @@ Fixpoint LOOPG (n : nat) (ls : lexstate) (s : list ch) (ln : Z) (harmony : bool)
                  let '(s4, ln4) := skip_space s3 ln2 in
                  let '(body, s5, ln5) := get_token_nest s4 ln4 123 125 in
                  if (64 <=? mc) && (mc <=? 127) then
-                   LOOPG n' (mkLex (lx_timebase ls) (lx_logs ls) (lx_vars ls) ((mc, body) :: lx_rhythm ls)) s5 ln5 harmony acc
+                   LOOPG n' (mkLex (lx_timebase ls) (lx_logs ls) (lx_vars ls) ((mc, body) :: lx_rhythm ls) (lx_ja ls)) s5 ln5 harmony acc
                  else
                    LOOPG n' (lx_add_log ls (zs "[ERROR](" ++ show_int ln5 ++ zs ") could not define Rhythm macro '" ++ [mc] ++ zs "' ")) s5 ln5 harmony acc
              end
